@@ -46,6 +46,8 @@ class HyteraIPSC:
         self.sequence_number = sequence_number
         self.color_code = color_code
         self.payload: Union[bytes, "Burst"] = payload
+        # 34th octet of the (word-swapped) IPSC payload, the DMR burst itself is 33 octets
+        self.payload_pad: bytes = b"\x00"
         self.destination_radio_id = destination_radio_id
         self.source_radio_id = source_radio_id
         # following are IPSC segments whose purpose/contents are unknown, filled with pre-defined values
@@ -89,7 +91,8 @@ class HyteraIPSC:
         color_code = int.from_bytes(ipsc[20:22], "little") & 0x0F
         frame_type = FrameType(int.from_bytes(ipsc[22:24], "little"))
         reserved_2a = ipsc[24:26]
-        payload = byteswap_bytes(ipsc[26:60])[:-1]
+        payload_padded = byteswap_bytes(ipsc[26:60])
+        payload = payload_padded[:-1]
         reserved_2b = ipsc[60:62]
         call_type = CallType(int.from_bytes(ipsc[62:63], "little"))
         destination_radio_id = int.from_bytes(ipsc[63:67], "little") >> 8
@@ -107,6 +110,7 @@ class HyteraIPSC:
             source_radio_id=source_radio_id,
             payload=payload,
         )
+        ipsc.payload_pad = payload_padded[-1:]
         ipsc.first_header = first_header
         ipsc.second_header = second_header
         ipsc.reserved_3 = reserved_3
@@ -135,13 +139,14 @@ class HyteraIPSC:
             payload=byteswap_bytes(ipsc.ipsc_payload)[:-1],
         )
         # assign values from original byte representation
+        _ipsc.payload_pad = byteswap_bytes(ipsc.ipsc_payload)[-1:]
         _ipsc.first_header = ipsc.source_port
         _ipsc.second_header = ipsc.fixed_header
         _ipsc.reserved_3 = ipsc.reserved_3
         _ipsc.reserved_7a = ipsc.reserved_7a
         _ipsc.reserved_2a = ipsc.reserved_2a
         _ipsc.reserved_2b = ipsc.reserved_2b
-        _ipsc.reserved_1 = ipsc.reserved_1b
+        _ipsc.reserved_1 = bytes([ipsc.reserved_1b])
 
         return _ipsc
 
@@ -159,13 +164,16 @@ class HyteraIPSC:
             + self.frame_type.value.to_bytes(2, byteorder="little")
             + self.reserved_2a[0:2]
             + byteswap_bytes(
-                self.payload
-                if isinstance(self.payload, bytes)
-                else (self.payload.as_bytes() + b"\x00")
+                (
+                    self.payload
+                    if isinstance(self.payload, bytes)
+                    else self.payload.as_bytes()
+                )
+                + self.payload_pad
             )
             + self.reserved_2b[0:2]
             + self.call_type.value.to_bytes(1, byteorder="little")
-            + self.destination_radio_id.to_bytes(4, byteorder="little")
-            + self.source_radio_id.to_bytes(4, byteorder="little")
+            + (self.destination_radio_id << 8).to_bytes(4, byteorder="little")
+            + (self.source_radio_id << 8).to_bytes(4, byteorder="little")
             + self.reserved_1[0:1]
         )
